@@ -56,7 +56,7 @@ CHECKS = {
    technique="runtime monitor over generated programs: compile + run the generated types on validated instances (round-trip oracle), cross-process determinism and uniqueness monitor on the generator output",
    design_ref="DESIGN.md section 3 C17"),
  "C19": dict(
-   text="Per feature set (quick: 32 sets incl. the full set, all 8 all-but-one sets, all 8 single-feature sets and the empty set; thorough: all 256): (a) build monitor: cargo check of the library with exactly that set; compiler errors are events keyed by code, file, named identifiers and the +/- literals of the set. (b) behaviour monitor (quick: the 8 all-but-one sets; thorough: every set that builds): a driver crate built against the set is run on a generated workload and compared record by record with the same driver built with all features: parser acceptance, Display text (exact, else classified as layout-only or token difference; commented schemas are compared with their comment-free twin when the set lacks ast-comments), Debug AST modulo span and empty comment fields, JSON / CBOR / CSV verdict classes and error counts. Items that use a control operator the set does not provide are skipped.",
+   text="Per feature set (quick: 32 sets incl. the full set, all 8 all-but-one sets, all 8 single-feature sets and the empty set; thorough: all 256): (a) build monitor: cargo check of the library with exactly that set; compiler errors are events keyed by code, file, named identifiers and the +/- literals of the set. (b) behaviour monitor (quick: the 8 all-but-one sets; thorough: those plus every fourth of the 256 sets, rotated by the seed): a driver crate built against the set is run on a generated workload and compared record by record with the same driver built with all features: parser acceptance, Display text (exact, else classified as layout-only or token difference; commented schemas are compared with their comment-free twin when the set lacks ast-comments), Debug AST modulo span and empty comment fields, JSON / CBOR / CSV verdict classes and error counts. Items that use a control operator the set does not provide are skipped.",
    note="One defect repaired by a fix: commit (232 of 256 feature sets did not compile). Two known findings: the no-ast-comments printer lays text out differently (layout only); without ast-span the parser drops all comments although ast-comments is on.",
    technique="runtime differential monitor across builds: the same driver compiled per cargo feature set, run on one generated workload, outputs compared; compiler as build oracle over the feature lattice",
    design_ref="DESIGN.md section 3 C19"),
@@ -71,7 +71,7 @@ CHECKS = {
    technique="runtime invariant monitor over the returned index (address identity against an independent walk)",
    design_ref="DESIGN.md section 3 C20"),
  "C03": dict(
-   text="Mirror monitor: derivation trees generated over the whole grammar are printed with randomised legal layout and parsed; the AST skeleton must equal the derivation (rule order, names, sockets, kinds, assignment operators, generic parameters, nesting of choices/groups/occurrences/member keys/operators, literal kinds and values). Disagreements are reproduced under a canonical rendering, shrunk on the derivation tree and explained by labelled repairs before lookup in known_findings.json. This decides 'derivable => accepted and mirrored' on the generated texts; the converse direction (non-derivable => rejected) is only exercised through C05/C15's mutants and is not judged here.",
+   text="Mirror monitor: derivation trees generated over the whole grammar are printed with randomised legal layout and parsed; the AST skeleton must equal the derivation (rule order, names, sockets, kinds, assignment operators, generic parameters, nesting of choices/groups/occurrences/member keys/operators, literal kinds and values). Disagreements are reproduced under a canonical rendering, shrunk on the derivation tree and explained by labelled repairs before lookup in known_findings.json. This decides 'derivable => accepted and mirrored' on the generated texts. The converse direction is judged only where the oracle is sound by construction: two edits per generated text that certainly leave the language (one bracket deleted outside literals and comments; a character no production can derive inserted outside literals and comments) must be rejected by cddl_from_str and CDDL::from_slice; a general recogniser for 'not derivable' was not built.",
    note="The harness-side grammar knowledge is the printer + skeleton (vh/src/gs.rs, skel.rs), written from RFC 8610 App. B / RFC 9682; group-vs-type rule ambiguity avoided by construction. Known findings: group rule with a bare entry, parenthesised type at the head of a group entry, '#' followed by white space and a digit or '('. Two defects repaired by fix: commits (.cborseq, byte-string member keys).",
    technique="runtime differential monitor: generated derivation -> printed text -> parser; invariant = skeleton equality; shrink + labelled-repair attribution",
    design_ref="DESIGN.md section 3 C03"),
@@ -102,7 +102,7 @@ CHECKS = {
    design_ref="DESIGN.md section 3 C05"),
  "C11": dict(
    text="Differential monitoring of decode_cbor against an independent RFC 8949 decoder: exhaustive over all byte strings of length 0..2, structured 3..10-byte scope, generated items in varied encodings with every prefix and byte-level mutants. Thorough tier adds an AddressSanitizer phase (first 20000 cases re-run by an ASan build of the harness) and a Miri phase (8 interpreter processes x 10 cases spread over the case space, Undefined Behavior = violation). Exploration: held on the inputs executed, exhaustive only for the enumerated scope.",
-   note="Trusts the hand-transcribed RFC 8949 rules in vh/src/dv.rs (model_decode); NaN payloads not compared; split-UTF-8 chunks undecided. Known finding C11-undefined-as-null is listed in known_findings.json.",
+   note="Trusts the hand-transcribed RFC 8949 rules in vh/src/dv.rs (model_decode); NaN payloads not compared; an indefinite text string with a chunk that ends inside a UTF-8 character must be refused (each chunk is a text string). Known finding C11-undefined-as-null is listed in known_findings.json.",
    technique="reference-model runtime monitor (differential oracle) over exhaustive small scope + generated/mutated inputs, crash-isolated worker processes",
    design_ref="DESIGN.md section 3 C11"),
 }
